@@ -135,7 +135,17 @@ def evaluate(prop, tier, rules, repo, configs=None):
     # tables list for it.  A new site with a listed signature in a listed function is still reported once the
     # group outgrows the tables.
     def base(k):
-        return re.sub(r"#\d+$", "", k)
+        # the group of a site: function (closures count with their parent: a loop body that becomes a `for_each`
+        # closure keeps its sites), rule, signature without the ordinal and without the variant names of the
+        # enum payloads it reads through (`local#Continue.0` after `?`, `local#Ok.0` after an explicit match)
+        parts = k.split("|", 2)
+        if len(parts) < 3:
+            return re.sub(r"#\d+$", "", k)
+        fn_, rule_, sig = parts
+        fn_ = re.sub(r"::\{closure#\d+\}", "", fn_)
+        sig = re.sub(r"#\d+$", "", sig)
+        sig = re.sub(r"#[A-Za-z_]+\.", "#.", sig)
+        return "%s|%s|%s" % (fn_, rule_, sig)
     listed = {}
     for k in list(kf_by_key) + list(audited_by_key):
         listed.setdefault(base(k), []).append(k)
